@@ -303,10 +303,8 @@ PAIRS = [
          subs=[(r"_subjects_tracked", "_tracked"), (r"_objects_tracked", "_tracked"), (r"p_o_triples_of_an_s", "triples_of_a_node"),
                (r"s_p_triples_of_an_o", "triples_of_a_node")], props=("C15",)),
     Pair("endpoint-dispatch-po-vs-sp", ESG + "yield_p_o_triples_of_an_s", ESG + "yield_s_p_triples_of_an_o",
-         subs=[(r"p_o_triples_of_an_s", "triples_of_a_node"), (r"s_p_triples_of_an_o", "triples_of_a_node")], props=("C15",)),
-    Pair("endpoint-query-po-vs-sp", "shexer.io.sparql.query:query_endpoint_po_of_an_s", "shexer.io.sparql.query:query_endpoint_sp_of_an_o",
-         subs=[(r"\bo_id\b", "x_id"), (r"\bs_id\b", "x_id")], post_subs=[(r"\(\((v\d+), (v\d+)\)\)", "((PAIR))")], post_fn=sort_pair_elements,
-         props=("C15",), header=False, keep_params=True),
+         subs=[(r"p_o_triples_of_an_s", "triples_of_a_node"), (r"s_p_triples_of_an_o", "triples_of_a_node"),
+               (r"_subjects_tracked", "_tracked"), (r"_objects_tracked", "_tracked")], props=("C15",)),   # which set: R-FLOW|tracked-set
     Pair("min-iri-and-examples-union", CP + "_annotate_min_iris", CP + "_annotate_shape_examples", mode="union",
          c=CP + "_annotate_shape_examples_and_min_iris", props=("C17",)),
     Pair("yielder-nt-vs-tsv", TYF + "_yielder_for_tsv_spo", TYF + "_yielder_for_turtle_iter",
